@@ -20,7 +20,12 @@ void harness(void){
     for(int i=0;i<3;i++) sym_cfg(&CFG.decoder_cfgs[i]);
     /* exact-size objects: a wrapped bstr over a malloc(LEN) block, and an inline bstr of size LEN */
     unsigned char *raw=malloc(LEN); __CPROVER_assume(raw!=NULL||LEN==0); for(size_t i=0;i<LEN;i++) raw[i]=in_u8();
+#if FUNC<=5
+    /* in-place functions: a WRAPPED bstr over the exact-size block, so that even data[-1] is outside every object */
+    bstr *b=bstr_wrap_mem(raw,LEN); __CPROVER_assume(b);
+#else
     bstr *b=bstr_alloc(LEN); __CPROVER_assume(b); for(size_t i=0;i<LEN;i++) bstr_ptr(b)[i]=raw[i]; bstr_adjust_len(b,LEN);
+#endif
 #if FUNC==1
     assert(htp_decode_path_inplace(&TX,b)==HTP_OK); assert(bstr_len(b)<=LEN);
 #elif FUNC==2
